@@ -55,17 +55,11 @@ def decodeOracle (j : Json) : Except String Oracle := do
     pure ((← J.getHex t "requestor"), (← J.getHex t "name"))
   pure { tokens := tokens, denyImp := deny }
 
-/-- the name an impersonation request is about (`actingAsAttributes.Name`) -/
-def impName : Model.Identity.ImpReq → Str
-  | .sa _ name => name
-  | .user name => name
-  | .group name => name
-  | .extra _ value => value
-
 def Oracle.authn (o : Oracle) (tok : Str) : Option Model.Identity.Identity := o.tokens.lookup tok
 
-def Oracle.authz (o : Oracle) (u : Model.Identity.Identity) (q : Model.Identity.ImpReq) : Model.Identity.Decision :=
-  if o.denyImp.any (fun d => d.1 == u.name && d.2 == impName q) then .deny else .allow
+/-- refused: the (requestor, `actingAsAttributes.Name`) pairs listed -/
+def Oracle.authz (o : Oracle) (u : Model.Identity.Identity) (q : Model.Identity.Attrs) : Model.Identity.Decision :=
+  if o.denyImp.any (fun d => d.1 == u.name && d.2 == q.name) then .deny else .allow
 
 def decodeCluster (j : Json) : Except String (ClusterCfg × Oracle) := do
   let servers ← (← J.getArr j "servers").toList.mapM fun s => do
